@@ -83,7 +83,7 @@ static int run_reader(int N, const std::vector<int> &h, const std::string &repla
     const char *cls = fits ? (sz == remaining ? "size == remaining" : "size < remaining") : (sz >= SMAX - 1 && cur + sz < cur ? "size > remaining and cursor+size overflows size_t" : "size > remaining");
     sq::stat("transitions");
     bool threw = false;
-    std::string why;
+    std::string why, what;
     std::unique_ptr<uint8_t[]> dst;
     std::shared_ptr<ArrayView<uint8_t>> view;
     try {
@@ -103,24 +103,29 @@ static int run_reader(int N, const std::vector<int> &h, const std::string &repla
     }
     if (fits) {
       if (threw)
-        why = "threw although size <= remaining";
+        what = why = "threw although size <= remaining";
       else if (is_view) {
-        if (view->size() != sz)
+        if (view->size() != sz) {
+          what = "view size differs";
           why = "view size " + std::to_string(view->size()) + " want " + std::to_string(sz);
-        else if (sz && view->data() != buf->begin() + cur)
-          why = "view does not start at the cursor";
+        } else if (sz && view->data() != buf->begin() + cur)
+          what = why = "view does not start at the cursor";
         else if (sz && memcmp(view->data(), bytes.data() + cur, sz) != 0)
-          why = "view bytes differ";
+          what = why = "view bytes differ";
       } else if (sz && memcmp(dst.get(), bytes.data() + cur, sz) != 0)
-        why = "bytes delivered differ from buffer[cursor, cursor+size)";
+        what = why = "bytes delivered differ from buffer[cursor, cursor+size)";
       if (why.empty())
         cur += sz;
     } else if (!threw)
-      why = "accepted a size that extends past the buffer";
-    if (why.empty() && r.cursor != cur)
-      why = std::string(fits ? "cursor after an accepted call" : "cursor moved by a rejected call") + ": " + std::to_string(r.cursor) + " want " + std::to_string(cur);
-    if (why.empty() && r.end() != (cur == (size_t)N))
-      why = std::string("end() is ") + (r.end() ? "true" : "false") + " with cursor " + std::to_string(cur) + " of " + std::to_string(N);
+      what = why = "accepted a size that extends past the buffer";
+    if (why.empty() && r.cursor != cur) {
+      what = fits ? "cursor wrong after an accepted call" : "cursor moved by a rejected call";
+      why = what + ": " + std::to_string(r.cursor) + " want " + std::to_string(cur);
+    }
+    if (why.empty() && r.end() != (cur == (size_t)N)) {
+      what = std::string("end() is ") + (r.end() ? "true although bytes remain" : "false although the cursor is at the end");
+      why = what + ": cursor " + std::to_string(cur) + " of " + std::to_string(N);
+    }
     if (verbose)
       printf("op %zu: %s with size %zu (remaining %zu): %s -> %s\n", step, reader_opname(op).c_str(), sz, remaining, threw ? "threw" : "returned", why.empty() ? "as the model" : why.c_str());
     if (last) {
@@ -129,10 +134,6 @@ static int run_reader(int N, const std::vector<int> &h, const std::string &repla
       sq::outcome(digest);
     }
     if (!why.empty()) {
-      // only the last operation of a history can be new (prefixes are histories of their own)
-      std::string what = why.substr(0, why.find(':'));
-      if (what.find("view size") == 0)
-        what = "view size differs";
       sq::viol(fn + "|" + what + "|" + cls, replay, "N=" + std::to_string(N) + " cursor " + std::to_string(cur) + " " + reader_opname(op) + " = size " + std::to_string(sz) + ": " + why);
       return sq::H_VIOL;
     }
@@ -290,20 +291,14 @@ int main(int argc, char **argv)
   const int A = reader ? 14 : 8;
   for (int n = 0; n <= 6; n++) {
     const std::string tag = (reader ? "reader/N" : "fixedwriter/C") + std::to_string(n);
-    const int nshards = 16;
-    vr::run_sharded(nshards, [&](int shard, long long resume_after) {
-      sq::shard_begin(tag, shard, resume_after);
-      sq::Explorer ex(A, depth);
-      ex.tag = tag;
-      if (reader) {
-        ex.run = [n](const std::vector<int> &h, const std::string &rp) { return run_reader(n, h, rp, false); };
-        ex.sigctx = [](const std::vector<int> &h) { return h.empty() ? std::string("BufferReader|crash in setup") : (h.back() < 7 ? "BufferReader::read" : "BufferReader::getView") + std::string("|crash|size ") + SZNAME[h.back() % 7]; };
-      } else {
-        ex.run = [n](const std::vector<int> &h, const std::string &rp) { return run_writer(n, h, rp, false); };
-        ex.sigctx = [](const std::vector<int> &h) { return h.empty() ? std::string("FixedBufferWriter|crash in setup") : (h.back() < 4 ? "FixedBufferWriter::write" : "FixedBufferWriter::reserve") + std::string("|crash"); };
-      }
-      ex.go(shard, nshards, resume_after);
-    });
+    if (reader)
+      sq::explore_tree(
+          tag, A, depth, 16, [n](const std::vector<int> &h, const std::string &rp) { return run_reader(n, h, rp, false); },
+          [](const std::vector<int> &h) { return h.empty() ? std::string("BufferReader|crash in setup") : (h.back() < 7 ? "BufferReader::read" : "BufferReader::getView") + std::string("|crash|size ") + SZNAME[h.back() % 7]; });
+    else
+      sq::explore_tree(
+          tag, A, depth, 16, [n](const std::vector<int> &h, const std::string &rp) { return run_writer(n, h, rp, false); },
+          [](const std::vector<int> &h) { return h.empty() ? std::string("FixedBufferWriter|crash in setup") : (h.back() < 4 ? "FixedBufferWriter::write" : "FixedBufferWriter::reserve") + std::string("|crash|size ") + std::to_string(h.back() % 4); });
   }
   sq::remove_scratch();
   vr::note(part + ": alphabet " + std::to_string(A) + ", depth " + std::to_string(depth) + ", buffer sizes 0..6; a history is not extended after a violation");
